@@ -559,9 +559,7 @@ func gen(r *Rand, col *Collector) Input {
 		g.addrs = append(g.addrs, hexOf(r, 20, r.Intn(3)))
 		g.keys = append(g.keys, hexOf(r, 48, r.Intn(3)))
 	}
-	for i := 1; i <= 6; i++ {
-		g.relays = append(g.relays, fmt.Sprintf("https://relay%d.example.com/", i))
-	}
+	g.spellRelays() // relayspell_test.go: mostly "https://relay<n>.example.com/"
 	var doc map[string]any
 	legacy := r.Chance(1, 4)
 	if legacy {
